@@ -361,7 +361,7 @@ func c20RunSessions(b core.Batch, r *core.Recorder) {
 		for step := 0; step < 6+rng.IntN(10); step++ {
 			switch op := rng.IntN(8); {
 			case op == 6: // login as somebody who does not exist, with passwords an attacker would try first
-				user := []string{"nobody", "administrator", "root", "", "Admin", "admin ", "admin\u0000"}[rng.IntN(7)]
+				user := []string{"nobody", "administrator", "root", "", "admin2", "admin ", "admin\u0000"}[rng.IntN(7)] // (not "Admin": the users table compares names case-insensitively, COLLATE NOCASE)
 				pass := []string{"right-password", "placeholder", "", "admin", "password"}[rng.IntN(5)]
 				ops = append(ops, fmt.Sprintf("login-unknown-user(%q,%q)", user, pass))
 				body, _ := json.Marshal(map[string]string{"username": user, "password": pass})
